@@ -127,7 +127,8 @@ var (
 	tOp     = &ty{k: "opcode"}
 	tOps    = &ty{k: "opcodes"}
 	tOpGs   = &ty{k: "opgroups"}
-	tSeqM   = &ty{k: "seqm"} // *difflib.sequenceMatcher: the two sequences it was built from
+	tFuncP  = &ty{k: "funcptr"} // *runtime.Func: the function's name, none = nil
+	tSeqM   = &ty{k: "seqm"}    // *difflib.sequenceMatcher: the two sequences it was built from
 	tBad    = &ty{k: "?"}
 )
 
@@ -216,6 +217,12 @@ func (t *ty) lean() string {
 		return "List GoSnaps.GoIO.OpCodeI"
 	case "opgroups":
 		return "List (List GoSnaps.GoIO.OpCodeI)"
+	case "funcptr":
+		return "Option (List UInt8)"
+	case "nat":
+		return "Nat"
+	case "frames":
+		return "List GoSnaps.GoIO.Frame"
 	case "seqm":
 		return "(List (List UInt8) × List (List UInt8))"
 	case "registry":
@@ -397,6 +404,10 @@ var funcSpecs = []funcSpec{
 		extra:   []param{{"nocolor", tBool}, {"groupedOpCodes", fnOf(tOpGs, tTexts, tTexts, tInt)}, {"singlelineDiffFn", fnOf(nestedPair([]*ty{tText, tInt, tInt}), tText, tText)}},
 		externs: map[string]param{"colors.NOCOLOR": {"nocolor", tBool}},
 		extFns:  map[string]param{"singlelineDiff": {"singlelineDiffFn", fnOf(nestedPair([]*ty{tText, tInt, tInt}), tText, tText)}}},
+	{pkg: "snaps", name: "baseCaller", sig: "skip:int->string", out: "IO",
+		extra: []param{{"fuel", &ty{k: "nat"}}, {"frames", &ty{k: "frames"}}},
+		extFns: map[string]param{"runtime.Caller": {"(GoSnaps.GoIO.runtimeCaller frames)", fnOf(nestedPair([]*ty{tInt, tText, tInt, tBool}), tInt)},
+			"runtime.FuncForPC": {"(GoSnaps.GoIO.funcForPC frames)", fnOf(tFuncP, tInt)}}},
 	// Config options
 	{pkg: "snaps", name: "Update", sig: "u:bool->func(*Config)", out: "IO"},
 	{pkg: "snaps", name: "Filename", sig: "name:string->func(*Config)", out: "IO"},
@@ -618,6 +629,8 @@ func goType(e ast.Expr) *ty {
 			return tByte
 		case "error":
 			return tErr
+		case "uintptr":
+			return tInt
 		case "any":
 			// a value of type any is represented by the text it is rendered to (kr/pretty's Sprint for
 			// snapshot values; the string itself or err.Error() for handleError's argument)
@@ -1983,6 +1996,33 @@ func (t *ftr) ifStmt(s *ast.IfStmt, ind string, res *ty) string {
 // for i := lo; i < hi; i++ { body }
 func (t *ftr) forStmt(s *ast.ForStmt, ind string, res *ty) string {
 	var b strings.Builder
+	if s.Cond == nil && s.Init != nil && s.Post != nil {
+		// for i := lo; ; i++ { body }: left only by return/break.  The translation runs at most `fuel`
+		// iterations (an explicit parameter of the function); running out of fuel is `none`, and the tie
+		// theorem shows that a fuel exceeding the size of the input is never exhausted.
+		init, ok1 := s.Init.(*ast.AssignStmt)
+		post, ok3 := s.Post.(*ast.IncDecStmt)
+		if ok1 && ok3 && init.Tok == token.DEFINE && len(init.Lhs) == 1 && len(init.Rhs) == 1 && post.Tok == token.INC && t.hasExtra("fuel") {
+			iv, okA := init.Lhs[0].(*ast.Ident)
+			pv, okC := post.X.(*ast.Ident)
+			whole, _ := assignedIn(s.Body)
+			if okA && okC && iv.Name == pv.Name && !whole[iv.Name] {
+				lo := t.exprH(init.Rhs[0], tInt)
+				if t.err == nil && lo.t.k == "int" && !lo.p {
+					t.partial = true
+					fmt.Fprintf(&b, "%sfor %s in GoSnaps.GoSem.intRange %s (%s + (fuel : Int)) do\n", ind, leanIdent(iv.Name), lo.s, lo.s)
+					t.push()
+					t.bind(iv.Name, tInt)
+					b.WriteString(t.block(s.Body.List, ind+"  ", res))
+					t.pop()
+					fmt.Fprintf(&b, "%snone  -- out of fuel\n", ind)
+					return b.String()
+				}
+			}
+		}
+		t.stmtFail(&b, ind, "unsupported unbounded loop")
+		return b.String()
+	}
 	init, ok1 := s.Init.(*ast.AssignStmt)
 	cond, ok2 := s.Cond.(*ast.BinaryExpr)
 	post, ok3 := s.Post.(*ast.IncDecStmt)
@@ -2473,6 +2513,9 @@ func translateFunc(pkg *pkgInfo, sp *funcSpec, consts map[string]bool, funcs map
 		ffail("funcs: %s has an empty body", sp.name)
 	}
 	_, endsInReturn := fd.Body.List[n-1].(*ast.ReturnStmt)
+	if fs, ok := fd.Body.List[n-1].(*ast.ForStmt); ok && fs.Cond == nil {
+		endsInReturn = true // an unbounded loop: control never falls out of it
+	}
 	if len(rts) > 0 && !endsInReturn {
 		// every path of a Go function with results ends in a return
 		ffail("funcs: %s does not end with a return statement", sp.name)
